@@ -16,7 +16,7 @@ RULE = ("lines = reference rendering of (record, dialect point); the full cross 
         "quick, 1..5 thorough) x extra columns x '.' coordinates is executed, then random records; non-trivial = >= 2 "
         "attributes; distinct = distinct (dialect point, shape tuple, extras, dots) or distinct random line")
 REQUIRED = ["lines parsed again after editing the first result", "feature_from_line calls", "byte-identical prints", "strict=False comparisons", "_reconstruct contract evaluations",
-            "lines with '%' inside a key", "quoted-dialect lines with a double quote at the edge of a value"]
+            "literal lines with an empty-looking attribute column compared", "lines with '%' inside a key", "quoted-dialect lines with a double quote at the edge of a value"]
 ASSUMPTIONS = [
     "grammar: values are non-empty, do not begin/end with a blank, reserved characters appear only as upper-case "
     "percent-escapes (gff3 / unquoted gff2) or not at all (gtf: no ; \" , controls); gff3 values contain no double quote",
@@ -136,7 +136,29 @@ def check_line(ctx, rec, D, case):
         ctx.violation(case, v)
 
 
+def check_literal(ctx, case):
+    """A literal line whose attribute column is one of the 'nothing here' spellings: printing reproduces it byte for byte."""
+    from gffutils.feature import feature_from_line
+
+    line = case["line"]
+    try:
+        f = feature_from_line(line, keep_order=True)
+        printed = str(f)
+    except Exception as ex:
+        ctx.violation(case, {"why": "parsing/printing a literal line raised %r" % (ex,), "line": line})
+        return
+    ctx.mon("literal lines with an empty-looking attribute column compared")
+    cols = line.split("\t")
+    if printed != line or [f.seqid, f.source, f.featuretype] != cols[:3] or list(f.extra) != cols[9:]:
+        ctx.violation(case, {"why": "printed form differs from the line", "line": line, "printed": printed})
+        return
+    for v in contracts.drain():
+        ctx.violation(case, v)
+
+
 def execute(ctx, case):
+    if case.get("kind") == "literal":
+        return check_literal(ctx, case)
     check_line(ctx, case["rec"], case["D"], case)
 
 
@@ -191,6 +213,15 @@ def run(ctx):
             case = {"kind": "line", "D": D, "rec": rec}
             check_line(ctx, rec, D, case)
             ctx.case(("resv", D, ch), True, cls="each reserved character escaped")
+    # the ninth column's 'nothing here' spellings: empty, and the single '.' that the other columns use for 'no value'
+    if ctx.shard == 0:
+        for col9 in ("", "."):
+            for extra in ([], ["x"], ["extra col", "."], [""]):
+                for c in (("1", "9"), (".", "9"), ("1", ".")):
+                    line = "\t".join(["chr1", "src", "gene", c[0], c[1], ".", "+", ".", col9] + extra)
+                    case = {"kind": "literal", "line": line}
+                    execute(ctx, case)
+                    ctx.case(("literal", line), True, sample=case, cls="literal attribute column %r" % col9)
     # random records
     for _ in range(ctx.budget(20000, 800000)):
         D = rng.choice(pts)
